@@ -14,7 +14,7 @@ IMG_SERVER(s)
 
 static int thorough;
 static const char ALPHA[] = "aAb-.*0";
-enum { K_VALID_CASES, K_MATCH_CASES, K_MATCHES, K_ACCEPTED, K_DISPATCH, K_DISPATCH_TUNNEL, K_LONG };
+enum { K_VALID_CASES, K_MATCH_CASES, K_MATCHES, K_ACCEPTED, K_DISPATCH, K_DISPATCH_TUNNEL, K_LONG, K_PAIRS };
 
 /* ---- reference validator, from the property statement ---- */
 /* returns 1 accept, 0 reject, -1 = statement does not decide (wildcard label counted or not) */
@@ -242,7 +242,43 @@ static void fn_dispatch(const char *s, int n)
 	dispatch_one(s, n, cur_dom);
 }
 
-/* jobs: 0..6 validation by first char (len<=7), 7 boundary; 8..14 matching by first char; 15 long; 16.. dispatch per domain */
+/* ---- histories of two calls: the matcher is used as a function of (name, domain); whatever an implementation remembers from
+ * the previous call must not change the next result.  For each domain every name of length <= P1 (and every *matching* name
+ * one longer) is followed by every name of length <= P2. ---- */
+static const char *PAIR_DOMAINS[] = { "*.a", "*.b.a", "*.a.b", "a.b", "A.b", "ab.b", "*.0.a", "a-b.a" };
+#define NPD ((int)(sizeof PAIR_DOMAINS / sizeof PAIR_DOMAINS[0]))
+static char (*PNAMES)[8]; static int npnames, npn_cap;
+static void fn_collect(const char *s, int n) { if (strstr(s, "..")) return; if (npnames == npn_cap) { npn_cap = npn_cap ? npn_cap * 2 : 4096; PNAMES = realloc(PNAMES, (size_t)npn_cap * 8); } memcpy(PNAMES[npnames++], s, n + 1); }
+static void pairs_job(int d)
+{
+	const char *dom = PAIR_DOMAINS[d]; int dl = strlen(dom);
+	int p1 = thorough ? 5 : 4, p2 = thorough ? 6 : 5;
+	npnames = 0;
+	for (int n = 0; n <= p2; n++) for (int f = 0; f < 7; f++) enum_strings(n, f, fn_collect);
+	long firsts = 0;
+	for (int i = 0; i < npnames; i++) {
+		int l1 = strlen(PNAMES[i]);
+		int m1 = ref_match(PNAMES[i], l1, dom, dl);
+		if (l1 > p1 && !(l1 == p1 + 1 && m1 >= 0)) continue;
+		firsts++;
+		for (int k = 0; k < npnames; k++) {
+			int r1 = s_query_datalen(PNAMES[i], dom);
+			int r2 = s_query_datalen(PNAMES[k], dom);
+			int l2 = strlen(PNAMES[k]);
+			int m2 = ref_match(PNAMES[k], l2, dom, dl);
+			xp_count(K_PAIRS, 1);
+			if (r1 != m1 || r2 != m2) {
+				viol(r2 != m2 ? (r2 < 0 ? "tunnel-name-not-matched-after-another-name" : m2 < 0 ? "foreign-name-matched-after-another-name" : "wrong-data-length-after-another-name") : "result-depends-on-earlier-calls",
+				     "query_datalen(\"%s\", \"%s\") = %d (reference %d), then query_datalen(\"%s\", \"%s\") = %d (reference %d)", PNAMES[i], dom, r1, m1, PNAMES[k], dom, r2, m2);
+				return;
+			}
+		}
+	}
+	xp_outcome(0x5000 + d);
+	if (d == 0) xp_sample("histories of two calls: domain %s, %ld first names (all of length <= %d, matching ones of length %d) x %d second names (length <= %d); %d domains", dom, firsts, p1, p1 + 1, npnames, p2, NPD);
+}
+
+/* jobs: 0..6 validation by first char (len<=7), 7 boundary; 8..14 matching by first char; 15 long; 16.. dispatch per domain; then two-call histories per domain */
 static void boot_failed(const struct w_server_cfg *c, int state)
 {
 	viol("valid-domain-rejected", "the server does not start with the valid tunnel domain %s (start-up ended in state %d)", c->topdomain, state);
@@ -259,6 +295,7 @@ static void job(int j)
 		for (int n = 0; n <= mmax; n++) enum_strings(n, j - 8, fn_match);
 		if (j == 8) xp_sample("matching: all names of length 0..%d over {a,A,b,-,.,*,0} without '..' x %d domains, e.g. query_datalen(\"a.A.b\", \"*.a.b\")", mmax, NDOM);
 	} else if (j == 15) long_match();
+	else if (j >= 16 + NDOM) pairs_job(j - 16 - NDOM);
 	else {
 		int d = j - 16;
 		struct w_server_cfg c = { .topdomain = DOMAINS[d], .password = "pw", .my_ip = "10.0.0.1", .netmask = 29,
@@ -285,11 +322,11 @@ int main(int argc, char **argv)
 	xp_guard("!C17", NULL, 0);
 	if (a.replay) { job(xp_load_replay(a.replay)); return 0; }
 	hc_quiet();
-	xp_run_jobs(16 + NDOM, job, a.workers);
+	xp_run_jobs(16 + NDOM + NPD, job, a.workers);
 	char extra[300];
-	snprintf(extra, sizeof extra, "\"valid_cases\":%ld,\"match_cases\":%ld,\"matches\":%ld,\"accepted\":%ld,\"dispatch_cases\":%ld,\"dispatch_tunnel\":%ld,\"long_cases\":%ld",
+	snprintf(extra, sizeof extra, "\"valid_cases\":%ld,\"match_cases\":%ld,\"matches\":%ld,\"accepted\":%ld,\"dispatch_cases\":%ld,\"dispatch_tunnel\":%ld,\"long_cases\":%ld,\"two_call_histories\":%ld",
 		 XS->counters[K_VALID_CASES], XS->counters[K_MATCH_CASES], XS->counters[K_MATCHES], XS->counters[K_ACCEPTED],
-		 XS->counters[K_DISPATCH], XS->counters[K_DISPATCH_TUNNEL], XS->counters[K_LONG]);
+		 XS->counters[K_DISPATCH], XS->counters[K_DISPATCH_TUNNEL], XS->counters[K_LONG], XS->counters[K_PAIRS]);
 	xp_print_stats(extra);
 	return 0;
 }
